@@ -10,8 +10,13 @@
              registering in ZookeeperExpired.Wait().  The condition variable has Go sync.Cond semantics: a
              Broadcast with no registered waiter is lost (Expired is a no-op in every phase but Evaluating).
      step_s  sequential machine: the hand-over Lock() -> Wait() is atomic (GotLock is never observable).
-   Time is Z nanoseconds; minInterval is Z seconds (assumed 0 <= mi*10^9 < 2^63, no Duration overflow). *)
+   Time is Z nanoseconds (time.Time holds seconds and nanoseconds separately and does not wrap in any range reached
+   here); minInterval is an int64 number of seconds.  The two products the code forms with it are int64 / time.Duration
+   products and WRAP as Go's do (Int64.mul64):  -time.Duration(minInterval) * time.Second  and  minInterval*1000.
+   The pacing theorems hold for 0 <= minInterval <= max_pace_interval = 9223372036 (minInterval * 10^9 < 2^63); beyond
+   that bound sendBefore lies in the future and every group is due at every iteration (pacing_wrap_refuted). *)
 From Coq Require Import ZArith List Bool FMapPositive.
+From Burrow Require Import Int64.
 Import ListNotations.
 Open Scope Z_scope.
 
@@ -50,8 +55,13 @@ Record state := mkState { ph : phase; doEval : bool; conn : bool; groups : Posit
 Definition ns_per_s : Z := 1000000000.
 Definition ns_per_ms : Z := 1000000.
 
-(* sendBefore := timeNow.Add(-time.Duration(minInterval) * time.Second); LastEval.Before(sendBefore) *)
-Definition send_before (mi now : Z) : Z := now - mi * ns_per_s.
+(* sendBefore := timeNow.Add(-time.Duration(minInterval) * time.Second); LastEval.Before(sendBefore)
+   -time.Duration(mi) is an int64 negation, the product with time.Second (10^9) an int64 product: both wrap.
+   Time.Add is exact (seconds and nanoseconds are added separately; the saturation of addSec is out of reach). *)
+Definition neg_duration (mi unit_ns : Z) : Z := mul64 (wrap64 (- mi)) unit_ns.
+Definition send_before (mi now : Z) : Z := now + neg_duration mi ns_per_s.
+(* the largest minInterval whose Duration does not wrap: 9223372036 * 10^9 < 2^63 <= 9223372037 * 10^9 *)
+Definition max_pace_interval : Z := 9223372036.
 Definition due (mi now le : Z) : bool := le <? send_before mi now.
 
 Definition stamp (mi now le : Z) : Z := if due mi now le then now else le.
@@ -62,7 +72,8 @@ Definition tick_evals (mi now : Z) (gs : PositiveMap.t Z) : list action :=
 Definition tick (mi now : Z) (gs : PositiveMap.t Z) : PositiveMap.t Z * list action :=
   (PositiveMap.map (stamp mi now) gs, tick_evals mi now gs).
 
-(* processConsumerList: keep listed entries, create missing ones with LastEval = now - rand ms, drop the rest *)
+(* processConsumerList: keep listed entries, create missing ones with
+   LastEval = time.Now().Add(-time.Duration(rand.Int63n(minInterval*1000)) * time.Millisecond), drop the rest *)
 Definition refresh_groups (now : Z) (present : list (positive * Z)) (gs : PositiveMap.t Z) : PositiveMap.t Z :=
   fold_left (fun acc gr =>
     let g := fst gr in
@@ -70,7 +81,7 @@ Definition refresh_groups (now : Z) (present : list (positive * Z)) (gs : Positi
              | Some le => le
              | None => match PositiveMap.find g gs with
                        | Some le => le
-                       | None => now - snd gr * ns_per_ms
+                       | None => now + neg_duration (snd gr) ns_per_ms
                        end
              end in
     PositiveMap.add g v acc) present (PositiveMap.empty Z).
@@ -108,8 +119,9 @@ Definition step_i (mi : Z) (s : state) (e : event) : state * list action :=
           let r := tick mi now (groups s) in (mkState p (doEval s) (conn s) (fst r), snd r)
         else (s, [])
     | Refresh now present =>
-        (* rand.Int63n(minInterval*1000) panics for a non-positive argument *)
-        if needs_new present (groups s) && (mi * 1000 <=? 0) then (set_ph s Crashed, [Panic])
+        (* rand.Int63n(minInterval*1000) panics for a non-positive argument: minInterval <= 0, and every minInterval
+           whose int64 product with 1000 wraps to a non-positive value (from 9223372036854776 on) *)
+        if needs_new present (groups s) && (mul64 mi 1000 <=? 0) then (set_ph s Crashed, [Panic])
         else (mkState p (doEval s) (conn s) (refresh_groups now present (groups s)), [])
     | Response _ _ => (s, [])
     end
